@@ -402,6 +402,15 @@ DEFAULT_VARIANTS = [make_default_variant(d) for d in ('A', 'B', 3)]
 LAMBDA_VARIANTS = [lambda x=None, i=i: _r.rec('lambda_variant', {'x': x, 'i': i}) for i in (10, 20, 30)]
 
 
+def stage(x=None, y=None):
+  return _r.rec('stage', locals())
+
+
+def stage_3(x=None, y=None):
+  """Its name looks like the third generated name for `stage`."""
+  return _r.rec('stage_3', locals())
+
+
 def two(x=None, y=None):
   return _r.rec('two', locals())
 
